@@ -972,7 +972,6 @@ def mask(F, ob, cfg):
     c.add("outcome", "wrong_length_rejected", _raises(lambda: pg.from_mask(np.ones(V + 1, dtype=bool))))
     if r is not None and kept:
         c.add("outcome", "class", type(r) is type(pg))
-        c.add("outcome", "new_object", r is not pg and r.points is not pg.points and r.adjacency_matrix is not pg.adjacency_matrix)
         _check_answers(F, c, None, _answers(r, len(kept), directed), View(E, kept), len(kept), directed, loops)
     c.flush()
     if r is not None and kept:
@@ -1083,7 +1082,6 @@ def tree_mask(F, ob, cfg):
     good = r is not None and len(kept) >= 2 and r.n_vertices == len(kept)
     if r is not None:
         c.add("outcome", "class", type(r) is ms.PointTree)
-        c.add("outcome", "new_object", r is not pt and r.points is not pt.points and r.adjacency_matrix is not pt.adjacency_matrix)
         c.add("outcome", "n_vertices", r.n_vertices == len(kept))
     if good:
         Ef = View(E, kept)
